@@ -157,7 +157,9 @@ func ShareWithConfig[T any](config ShareConfig[T]) func(Observable[T]) Observabl
 				)
 
 				// Subscription between the source and the subject.
-				sourceSubscription.AddUnsubscribable(
+				// `sourceSubscription` may already have been reset (and set to nil) by a
+				// source that terminates synchronously, so we use the local reference.
+				currentSourceSubscription.AddUnsubscribable(
 					source.SubscribeWithContext(subscriberCtx, proxy),
 				)
 			}
